@@ -57,7 +57,8 @@ KNOWN = {
     # rotate the vector components, so div = tr(grad u R^T) != 0.
     #   m = gs.Gaussian(dim=2, angles=0.7); srf = gs.SRF(m, generator="VectorField", seed=1, mode_no=100)
     #   central differences at (0.3,-0.4): du1/dx1 = 0.109, du2/dx2 = 0.843, div = 0.95
-    "rotated_isotropic_compressible": True,
+    # listed in known_findings.json (K23): reported through rec.soft as KNOWN-FINDING
+    "rotated_isotropic_compressible": False,
 }
 
 EPS = float(np.finfo(float).eps)
@@ -740,8 +741,8 @@ def check_moments(case, rec):
 
 
 SUBS = [
-    Sub("kernel_div", gen_kernel, check_kernel, quick=480, thorough=10000, shards_quick=4, shards_thorough=4),
-    Sub("fd_div", gen_fd, check_fd, quick=450, thorough=12000, shards_quick=3, shards_thorough=4),
-    Sub("projector", gen_projector, check_projector, quick=600, thorough=12000, shards_quick=3, shards_thorough=3),
-    Sub("moments", gen_moments, check_moments, quick=24, thorough=160, shards_quick=6, shards_thorough=5, shrink_quick=False),
+    Sub("kernel_div", gen_kernel, check_kernel, quick=480, thorough=8000, shards_quick=4, shards_thorough=4),
+    Sub("fd_div", gen_fd, check_fd, quick=450, thorough=7500, shards_quick=3, shards_thorough=3),
+    Sub("projector", gen_projector, check_projector, quick=600, thorough=9000, shards_quick=3, shards_thorough=3),
+    Sub("moments", gen_moments, check_moments, quick=24, thorough=120, shards_quick=6, shards_thorough=6, shrink_quick=False),
 ]
